@@ -192,6 +192,7 @@ func (s *c22Sched) round(q int, lossy bool) {
 	// every third round the primary (voters[round % n]) votes first and its prevote reaches the others before
 	// they prevote: determinePreVote then copies the primary's block when its number is not below the head's
 	prim := -1
+	ppID := -1
 	if r.Chance(1, 3) {
 		prim = q % nset
 		if s.prims != nil {
@@ -209,10 +210,17 @@ func (s *c22Sched) round(q int, lossy bool) {
 				s.op("best v%d b%d", prim, r.Pick(0, 0, 1, r.Intn(s.size())))
 			}
 			id = s.vote("pv v%d", prim)
+			ppID = s.vote("pp v%d", prim) // its signed primaryProposal: the best block, whatever it precommits later
 		}
 		pvs = append(pvs, id)
 		for _, to := range s.hon {
-			if to != prim && r.Chance(9, 10) {
+			if to == prim {
+				continue
+			}
+			if ppID >= 0 && r.Chance(1, 2) {
+				s.op("d m%d v%d", ppID, to) // the proposal arrives before the voter prevotes
+			}
+			if r.Chance(9, 10) {
 				s.op("d m%d v%d", id, to)
 			}
 		}
@@ -220,6 +228,22 @@ func (s *c22Sched) round(q int, lossy bool) {
 	for _, i := range s.shuffle(s.hon) {
 		if i != prim {
 			pvs = append(pvs, s.vote("pv v%d", i))
+		}
+	}
+	if ppID < 0 && r.Chance(1, 2) { // the primary's proposal of an ordinary round
+		p := q % nset
+		if s.prims != nil {
+			p = s.prims[q%nset]
+		}
+		if !s.byz[p] {
+			ppID = s.vote("pp v%d", p)
+		}
+	}
+	if ppID >= 0 && r.Chance(1, 2) { // … reaches some voters after they have prevoted
+		for _, to := range s.hon {
+			if r.Chance(1, 2) {
+				s.op("d m%d v%d", ppID, to)
+			}
 		}
 	}
 	for _, j := range script {
@@ -260,6 +284,13 @@ func (s *c22Sched) round(q int, lossy bool) {
 	}
 	if r.Chance(1, 4) { // late prevotes
 		s.deliver(pvs, 1, 3, -1)
+	}
+	if ppID >= 0 && r.Chance(2, 3) { // the proposal reaches voters after they have precommitted, before or after the
+		for _, to := range s.hon { // primary's own precommit
+			if r.Chance(2, 3) {
+				s.op("d m%d v%d", ppID, to)
+			}
+		}
 	}
 	exact = -1
 	if r.Chance(1, 5) {
